@@ -4,9 +4,11 @@ PROPS = {
     "C13": {
         "modules": ["SlogModel.Props.C13"],
         "components": [("time", 20000, 1500000)],
-        "rule": "one case = one time-field value through the real parseTime transform; distinct by bytes; "
+        "rule": "one case = one time-field value (or a sequence of 2-7) through one real parseTime transform instance, every value "
+                "built in one reused backing buffer as the fields of pooled records are; zone-alias cases run a two-zone sequence "
+                "through 12000 fresh transform instances (where a cached value lands differs per instance); distinct by bytes; "
                 "non-trivial = every case (each reaches the parser; classes in input_distribution)",
-        "level_text": "Theorems C13_exact (every valid RFC 3339 timestamp, 0-9 fraction digits, Z / +hh:mm / +hhmm, parses to the denoted instant), C13_total (no index or slice can fail, for every byte string), C13_malformed_* (short / wrong separator => error) and C13_transform_error_counted, proved in Lean 4 for all inputs on a model of rfc3339.go/atoi.go/tparsetime.go; the model is tied to the code by differential runs through the real transform (exhaustive fractions, mutated and random strings) and by three regenerated source facts.",
+        "level_text": "Theorems C13_exact (every valid RFC 3339 timestamp, 0-9 fraction digits, Z / +hh:mm / +hhmm, parses to the denoted instant), C13_total (no index or slice can fail, for every byte string), C13_malformed_* (short / wrong separator => error) and C13_transform_error_counted, proved in Lean 4 for all inputs on a model of rfc3339.go/atoi.go/tparsetime.go; the model is tied to the code by differential runs through the real transform (exhaustive fractions, mutated and random strings, sequences of values through one reused buffer) and by four regenerated source facts.",
         "level_note": "Trusted: Lean kernel, the three standard axioms, the model-code tie (sampled differential + go/ast facts), Go's time.Date/time.Parse as assumed in the model (differential-checked against the real library on every run).",
         "assumptions": [
             "time.Date is the proleptic-Gregorian days-from-civil formula with month normalisation (differential-checked)",
